@@ -158,6 +158,30 @@ impl World {
                 }
                 None => {
                     ctx.stat(Stat::LeadersSeen);
+                    // C11 (vote tally, cluster side): a node wins an election only with released
+                    // grants of that term from a majority of each voter set of its own
+                    // configuration (itself included)
+                    {
+                        let conf = self.my_conf(i);
+                        let mut grantors: BTreeSet<u64> = BTreeSet::new();
+                        grantors.insert(id);
+                        for (k, nd) in self.nodes.iter().enumerate() {
+                            if nd.g.votes.iter().any(|(t, c)| *t == post.term && *c == id) {
+                                grantors.insert(k as u64 + 1);
+                            }
+                        }
+                        ctx.stat(Stat::TalliesChecked);
+                        if !conf.is_quorum(&grantors) {
+                            ctx.v(
+                                "C11",
+                                "election won without grants from a majority of each voter set",
+                                format!(
+                                    "node {} became leader of term {} with configuration {:?}, but only {:?} granted it that term",
+                                    id, post.term, conf, grantors
+                                ),
+                            );
+                        }
+                    }
                     self.ghost.leader_of.insert(post.term, id);
                     if !durable {
                         self.ghost.leader_volatile.insert(post.term);
